@@ -406,6 +406,10 @@ def check_case(data: dict, lab: Labels) -> None:
             seen.append(i)
     defs = [(f"r{i}", texts[i]) for i in seen]
     mm = MultiPatternMatcher(defs)
+    # an explicitly empty selection selects nothing (it is not "no selection")
+    for empty in ([], (), frozenset(), {}.keys(), iter(())):
+        got_e = mm.match(srcs[0], rules=empty)
+        require(got_e is None, "multi-no-rule-should-match", f"{defs} rules={empty!r}: {got_e!r:.200}")
     k_multi = 0
     for node in [srcs[0], lives[data["others"][0] % len(lives)], lives[0]]:
         for rules in (None, [f"r{i}" for i in reversed(seen)], [f"r{seen[-1]}"]):
